@@ -202,8 +202,9 @@ def _check_len0_reader(fn, p, rd):
     val = unmut(rd.d["ret"])
     ok = False
     if st:
-        ok = knows(p, ("ne", val, 0), st[0][0].seq) is not None
-    return [Ob("R-LEN0", fn, "decode: length stored only after `len == 0` was refuted", ok, "decisions before the store to .length", rd.loc())]
+        # refuted before the store, or checked on the stored value afterwards: either way no success path keeps a zero length
+        ok = knows(p, ("ne", val, 0)) is not None
+    return [Ob("R-LEN0", fn, "decode: length stored only after `len == 0` was refuted", ok, "no success path keeps a length that was not tested against 0", rd.loc())]
 
 
 def r_len0_err(ctx):
